@@ -297,7 +297,7 @@ def impl_mcost(S, stationary, charge, days, cls="method", site_cost=0):
         m._crew_reports = crew_reports if served else []
         m._get_travel_time.seq = [T]
         m._get_travel_time.i = 0
-        wx = (15, 1, 0) if workable else (15, C.ENV["wind"][1] + 1, 0)
+        wx = (15, 1, 0) if workable else C.UNWORKABLE_WX[(k + S) % len(C.UNWORKABLE_WX)]
         weather = C.StubWeather([wx], day.timetuple().tm_yday - 1)
         wp = Workplan([planner], day)
         stats = m.deploy_crews(wp, weather, C.StubDaylight(24))
